@@ -77,6 +77,9 @@ def run(repo, rep):
                   '%s uses depth_left in %s: outside the closed set of uses (compare with 0, the decrement, pass along)'
                   % (f.key, src(p)[:80]), nontrivial=True)
     rep.floor('C11.a', n, 8)
+    # an explicit depth=None (no limit) must reach the pipeline as None, whatever default was configured (imported from C18.b)
+    from .c18 import check_merge
+    rep.floor('C11.a:explicit-none', check_merge(repo, rep, 'C11.a'), 6)
     # normalisation of None
     pts = repo.func('prettyprinter', 'python_to_sdocs')
     n2 = 0
